@@ -691,6 +691,72 @@ add('c20-benign-mask-literals', 'C20', 'benign', [(ENG, """_xmask = {2: 1 << 9, 
 add('c20-benign-dict-reordered', 'C20', 'benign', [(ENG, """_xfunc = {2: bin, 8: oct, 16: hex}""", """_xfunc = {16: hex, 2: bin, 8: oct}""")])
 add('c20-benign-exclusive-bound', 'C20', 'benign', [(DATE, """    if 60 < serial_number <= 2958465:""", """    if 60 < serial_number < 2958466:""")], may_error=True)
 
+# ---------------------------------------------------------------- C01
+FUNCTION = 'formulas/tokens/function.py'
+add('c01-percent-below-power', 'C01', 'break', [(OPERATOR, """'u-': 7, 'u+': 7, '%': 6, '^': 5,""", """'u-': 7, 'u+': 7, '%': 4, '^': 5,""")], expect='C01.prec')
+add('c01-concat-same-as-plus', 'C01', 'break', [(OPERATOR, """'-': 3, '&': 2,""", """'-': 3, '&': 3,""")], expect='C01.prec')
+add('c01-power-not-above-times', 'C01', 'break', [(OPERATOR, """'%': 6, '^': 5, '*': 4,""", """'%': 6, '^': 4, '*': 4,""")], expect='C01.prec')
+add('c01-unary-below-power', 'C01', 'break', [(OPERATOR, """':': 8, ' ': 8, ',': 8, 'u-': 7, 'u+': 7,""", """':': 8, ' ': 8, ',': 8, 'u-': 4.5, 'u+': 4.5,""")], expect='C01.prec')
+add('c01-ge-missing-key', 'C01', 'break', [(OPERATOR, """'<=': 1,
+        '>=': 1, '<>': 1""", """'<=': 1,
+        '<>': 1""")], expect='C01')
+add('c01-percent-binary', 'C01', 'break', [(OPERATOR, """    _n_args.update({'u-': 1, 'u+': 1, '%': 1})""", """    _n_args.update({'u-': 1, 'u+': 1})""")], expect='C01.arity')
+add('c01-right-assoc', 'C01', 'break', [(OPERATOR, """            if pred > stack[-1].pred:
+                break""", """            if pred >= stack[-1].pred:
+                break""")], expect='C01.assoc')
+add('c01-pop-inverted', 'C01', 'break', [(OPERATOR, """            if pred > stack[-1].pred:
+                break""", """            if pred < stack[-1].pred:
+                break""")], expect='C01.assoc')
+add('c01-pop-through-parenthesis', 'C01', 'break', [(OPERATOR, """        while stack and isinstance(stack[-1], Operator):
+            if pred > stack[-1].pred:""", """        while stack and isinstance(stack[-1], Token):
+            if pred > stack[-1].pred:""")], expect='C01.assoc', may_error=True)
+add('c01-unary-after-percent', 'C01', 'break', [(OPERATOR, """            b |= isinstance(t, Operator) and t.name == '%'
+""", "")], expect='C01.unary')
+add('c01-unary-after-closing-paren', 'C01', 'break', [(OPERATOR, """            b = isinstance(t, Parenthesis) and t.has_end""", """            b = False""")], expect='C01.unary')
+add('c01-binary-after-any-paren', 'C01', 'break', [(OPERATOR, """            b = isinstance(t, Parenthesis) and t.has_end""", """            b = isinstance(t, Parenthesis)""")], expect='C01.unary')
+add('c01-separator-semicolon', 'C01', 'break', [(OPERATOR, """    _re_process = regex.compile(r'^\\s*(?P<name>,)$')""", """    _re_process = regex.compile(r'^\\s*(?P<name>[,;])$')"""), (OPERATOR, """    _re = regex.compile(r'^(\\s*,\\s*)')""", """    _re = regex.compile(r'^(\\s*[,;]\\s*)')""")], expect='C01.names')
+add('c01-empty-first-arg-dropped', 'C01', 'break', [(OPERATOR, """            if isinstance(lt, Separator) or (
+                    lt.get_name == '(' and not isinstance(lt, String)
+            ):""", """            if isinstance(lt, Separator):""")], expect='C01.empty')
+add('c01-empty-between-dropped', 'C01', 'break', [(OPERATOR, """            if isinstance(lt, Separator) or (
+                    lt.get_name == '(' and not isinstance(lt, String)
+            ):""", """            if (
+                    lt.get_name == '(' and not isinstance(lt, String)
+            ):""")], expect='C01.empty')
+add('c01-empty-last-arg-dropped', 'C01', 'break', [(PAREN, """        if tokens and isinstance(tokens[-1],
+                                 Separator) and self.get_name == ')':
+            from .operand import Empty
+            Empty().ast(tokens, stack, builder)
+""", "")], expect='C01.empty')
+add('c01-binary-no-parentheses', 'C01', 'break', [(OPERATOR, """            expr = '(%s)' % (' %s ' % name).join(expr)""", """            expr = (' %s ' % name).join(expr)""")], expect='C01.render')
+add('c01-function-name-not-upper', 'C01', 'break', [(FUNCTION, """        self.attr['expr'] = '%s(%s)' % (self.name.upper(), args)""", """        self.attr['expr'] = '%s(%s)' % (self.name, args)""")], expect='C01.render')
+add('c01-set-expr-conditional', 'C01', 'break', [(OPERAND, """    def set_expr(self, *tokens):
+        self.attr['expr'] = '"%s"' % self.name""", """    def set_expr(self, *tokens):
+        if self.name:
+            self.attr['expr'] = '"%s"' % self.name""")], expect='C01.render')
+add('c01-range-before-error', 'C01', 'break', [(PARSER, """        Error, String, Number, Range, OperatorToken,""", """        String, Number, Range, Error, OperatorToken,""")], expect='C01.filters')
+add('c01-intersect-first', 'C01', 'break', [(PARSER, """        Error, String, Number, Range, OperatorToken, Separator, Function, Array,
+        Parenthesis, Intersect""", """        Intersect, Error, String, Number, Range, OperatorToken, Separator,
+        Function, Array, Parenthesis""")], expect='C01.filters')
+add('c01-benign-ranks-times-ten', 'C01', 'benign', [(OPERATOR, """        ':': 8, ' ': 8, ',': 8, 'u-': 7, 'u+': 7, '%': 6, '^': 5, '*': 4,
+        '/': 4, '+': 3, '-': 3, '&': 2, '=': 1, '<': 1, '>': 1, '<=': 1,
+        '>=': 1, '<>': 1""", """        ':': 80, ' ': 80, ',': 80, 'u-': 70, 'u+': 70, '%': 60, '^': 50,
+        '*': 40, '/': 40, '+': 30, '-': 30, '&': 20, '=': 10, '<': 10, '>': 10,
+        '<=': 10, '>=': 10, '<>': 10""")])
+add('c01-benign-relation-in-while', 'C01', 'benign', [(OPERATOR, """        while stack and isinstance(stack[-1], Operator):
+            if pred > stack[-1].pred:
+                break
+            builder.append(stack.pop())""", """        while stack and isinstance(stack[-1], Operator) and \\
+                pred <= stack[-1].pred:
+            builder.append(stack.pop())""")])
+add('c01-benign-filters-harmless-swap', 'C01', 'benign', [(PARSER, """        Error, String, Number, Range,""", """        String, Error, Number, Range,""")])
+add('c01-repair-unary-parenthesised', 'C01', 'repair', [(OPERATOR, """            expr = '{}{}'.format(name[1], *expr)""", """            expr = '({}{})'.format(name[1], *expr)""")],
+    clears='formulas/tokens/operator.py::Operator.set_expr::unary rendering unparenthesised')
+add('c01-repair-intersect-space', 'C01', 'repair', [(OPERATOR, """    _re = regex.compile(r'^(?P<name>\\s)\\s*')""", """    _re = regex.compile(r'^(?P<name> )\\s*')""")],
+    clears='formulas/tokens/operator.py::Intersect::names without precedence 09,0a,0b,0c,0d')
+add('c01-repair-single-sign', 'C01', 'repair', [(OPERATOR, """(?P<sum_minus>[\\+\\s\\-]+)""", """(?P<sum_minus>[\\+\\-])""")],
+    clears='formulas/tokens/operator.py::OperatorToken::sign runs folded into one operator')
+
 if __name__ == '__main__':
     here = os.path.dirname(os.path.abspath(__file__))
     ids = [v['id'] for v in V]
